@@ -223,16 +223,25 @@ bool Fs::isDir(const std::string& path) {
   return false;
 }
 
+namespace {
+// A directory that is not there matches nothing, it is not an error: with
+// GLOB_ERR one missing alternative of "{a,b}/*" (or one cgroup removed while
+// glob(3) walks the tree) aborted the whole call and lost every other match
+int globErrorIsFatal(const char* /* unused */, int err) {
+  return err != ENOENT && err != ENOTDIR;
+}
+} // namespace
+
 SystemMaybe<std::vector<std::string>> Fs::glob(
     const std::string& pattern,
     bool dir_only) {
   glob_t globbuf;
   std::vector<std::string> ret;
-  int flags = GLOB_NOSORT | GLOB_BRACE | GLOB_ERR;
+  int flags = GLOB_NOSORT | GLOB_BRACE;
   if (dir_only) {
     flags |= GLOB_ONLYDIR;
   }
-  auto ec = ::glob(pattern.c_str(), flags, nullptr, &globbuf);
+  auto ec = ::glob(pattern.c_str(), flags, globErrorIsFatal, &globbuf);
   OOMD_SCOPE_EXIT {
     ::globfree(&globbuf);
   };
